@@ -26,6 +26,7 @@ from spec.seq import N, Seq
 from spec.components import BasicFifoRep
 
 PROPERTY = "C28"
+HISTORY_LEMMAS = ['move_preserves', 'source_push', 'sink_pop', 'queue_history']  # lemmas/History.lean: one-cycle contracts => history-level statement (Lean 4)
 LEVEL = "proof"
 ASSUMPTIONS = [
     "pipeline shapes are bounded to the listed grammar instances (2-5 nodes, 2-bit fields); per shape all inputs and all histories (1-induction over the connectors' invariants)",
